@@ -18,6 +18,16 @@ def _core(prop_text, note_extra=""):
     }
 
 
+def _func(module, text, note_extra=""):
+    return {
+        "engine": "func",
+        "technique": "TLA+ transcription of the algorithm (%s) model-checked by TLC against the property's statement; abstract cases executed on the real function and each (input, output) validated by TLC against the transcription and the contract" % module,
+        "text": text,
+        "note": "Trusts TLC, the transcription (bound to the code by the conformance step: every case runs on the real function and TLC compares), and the concretisation in harness/src/func.rs. " + note_extra,
+        "design_ref": "DESIGN.md §4.7, §6",
+    }
+
+
 ENGINES = [
     {"name": "walring", "path": "lib/eng_walring.py", "serves_properties": ["C05"],
      "kind_free_text": "WalRing/WalAbs TLA+ models; transition tour of the TLC state graph replayed on the real EmbeddedWal; random real runs validated by TLC"},
@@ -26,6 +36,8 @@ ENGINES = [
 ]
 ENGINES.append({"name": "lock", "path": "lib/eng_lock.py", "serves_properties": ["C17"],
                 "kind_free_text": "Mv2Lock TLA+ model (processes, inodes, flock table, copy-and-rename commit) checked exhaustively; transition tour + random schedules stepped on real handles with an independent flock probe; recordings validated by TLC (Trace_Mv2Lock)"})
+ENGINES.append({"name": "func", "path": "lib/eng_func.py", "serves_properties": ["C31", "C32", "C35", "C37"],
+                "kind_free_text": "TLA+ transcriptions of self-contained algorithms (FooterScan, QueryLang, Snippet, Adaptive) model-checked against the property's own statement; abstract cases executed on the real functions and judged by TLC (Trace_Func)"})
 NOT_YET = "check not built yet in this revision of the machinery (see DESIGN.md §12 for the build order)"
 NOT_APPLICABLE = {
     "C30": "pure encode/decode fidelity of byte layouts (bincode TOC, header, footer, time index): a TLA+ model would have to re-implement the codecs; outside what state-machine specification decides (DESIGN.md §7)",
@@ -51,6 +63,10 @@ CLAIMED = {
         "note": "Trusts TLC, kernel flock semantics (locks belong to open file descriptions, so two handles in one process conflict like two processes; a cross-process probe is sampled), and the probe. Exhaustive for 2 processes and <= 3 commits; 3 handles in random schedules. Blocking Memvid::open (10 s retry) is exercised only in the thorough tier.",
         "design_ref": "DESIGN.md §4.4, §6 C17",
     },
+    "C31": _func("FooterScan", "TLC checks, for every byte string built from up to 4 tokens (filler cell, lone magic-first-byte cell, whole footers with zero/short/over-long TOC length, right/wrong hash, a magic-like byte inside the footer, truncated footers), that the transcribed backward scan returns exactly the valid footer ending at the highest offset. The same strings (exhaustive to 2-3 tokens, random to 12) are concretised with real magic, lengths and blake3 and run through the real find_last_valid_footer; TLC requires the returned offset, the TOC offset and 'the TOC bytes are what the footer describes' to equal the model's."),
+    "C32": _func("QueryLang", "The recursive-descent parser is transcribed (implicit AND, nesting limit, error returns). TLC checks Eval(Parse(Show(ast))) = Eval(ast) for every AST of depth 2 over 3-4 atoms and every document (NOT > AND > OR). Well-formed queries printed from reference ASTs (exhaustive depth 2, random to depth 5, mixed-case keywords, words/phrase/field terms) must parse and match each of 8-16 documents exactly as the AST does on the real parser+evaluator; every token string up to length 4-5 must return ok or InvalidQuery (totality); nesting depths up to 10^5-10^6 run in a subprocess each and must return InvalidQuery beyond the limit, never crash.", "Outcome/meaning of ill-formed strings is compared with the transcription only as drift (the property does not fix it). Wildcards and date ranges are not modelled."),
+    "C35": _func("Snippet", "compute_snippet_slices is transcribed with exact byte arithmetic over texts of 1-4-byte characters, terminators, newlines and spaces. TLC checks the contract (non-empty, inside the text, on character boundaries, strictly increasing, non-overlapping, at most max) for every text of up to 3-4 characters, occurrence lists (also out of bounds, unordered), windows and maxima including 0. The same and random longer cases (to 90 characters) run on the real function; TLC checks the contract on the real output and that slicing never panics.", "Equality with the transcription's exact slices is reported as drift only; the merge gap (20 bytes) is 1 in the exhaustive model so that multi-slice results are reachable."),
+    "C37": _func("Adaptive", "The absolute and relative strategies and min-max normalisation are transcribed over dyadic scores (exact in f32). TLC checks the bounds, threshold and normalisation contracts for every score list of up to 4-5 values (unsorted too), thresholds and min_results. On the real functions: the cut-off must equal the transcription's and satisfy the threshold contract (abs/rel); cliff, elbow and combined strategies must satisfy the bounds contract; normalised scores must be exactly (s-min)/range, in [0,1], maximum at 1.", "Scores are restricted to multiples of 1/8 with a power-of-two range so that f32 arithmetic is exact; NaN/infinite scores and the numeric internals of elbow/cliff are outside what this technique judges."),
     "C05": {
         "engine": "walring",
         "technique": "TLA+ cell-level model (WalRing) exhaustively checked by TLC + refinement to WalAbs; every TLC transition replayed on the real EmbeddedWal; recorded real runs validated against WalAbs by TLC",
